@@ -224,7 +224,8 @@ def table_task(task):
                 n, D, G = int(rng.integers(280, 330)), int(rng.integers(1, 3)), 5
                 clustered = task["shard"] % 8 == 0
                 part.count("traces_of_trees_with_more_than_256_clones")
-            samples = ["S%d" % i for i in range(D)]
+            # sample names in the loader's order (plain string sort), some with embedded numbers of different lengths
+            samples = sorted([["S0", "S1", "S2"], ["T5", "T12", "T101"], ["10", "9", "100"], ["s_b", "s_B", "s_a"]][c % 4][:D])
             data = gen.make_data(rng, n, D, G, kind="smooth")
             clusters = None
             if clustered:
